@@ -35,7 +35,7 @@ import (
 //	             later call with forUpdate=true after a read-only load still does
 
 func init() {
-	Register(&Rule{ID: "R-CACHE-4", Props: []string{"C20", "C09", "C01"}, Floor: 1,
+	Register(&Rule{ID: "R-CACHE-4", Props: []string{"C20", "C09", "C01", "C05"}, Floor: 1,
 		Doc:      "in every lib/query function with a forUpdate parameter that (re)reads a table file and files the view in a view container (cacheViewFromFile is the frozen anchor; any other loader whose reload guard reads FileInfo.ForUpdate of the cached view, such as the stdin loader, is a subject too), for each of the 8 assignments of {isCached, forUpdate, cachedForUpdate} that reach the publication and every path consistent with it, the value last stored into FileInfo.ForUpdate of the published view's FileInfo (a direct store or one made by a static callee ≤ 2 levels deep; no store = the reused cached value / false for a new FileInfo) makes the guard a fixpoint: re-evaluating the function's own branch conditions with isCached=true and that post-state, the same forUpdate does not reload again (else the view holding the transaction's uncommitted changes is dropped and re-read), and forUpdate=true after a read-only load still reloads (else the table is changed without its update lock)",
 		Controls: []string{"CtlGuardMemoryOnlyOnNewFileInfo", "CtlGuardMemoryAlwaysTrue", "CtlGuardMemoryNeverWritten"},
 		Run:      ruleCache4})
